@@ -1085,9 +1085,13 @@ class _RpcThread(QMI_Thread):
         assert self._rpc_object is not None
 
         return_token: Optional[QMI_LockTokenDescriptor]
-        if request.lock_action == QMI_LockRpcAction.ACQUIRE and request.lock_token is not None:
+        if request.lock_action == QMI_LockRpcAction.ACQUIRE:
             # Lock request; check if it is allowed.
-            if self._locking_token is None:
+            if request.lock_token is None:
+                # A lock request must carry a token; deny it (and keep the worker thread alive).
+                return_token = QMI_LockTokenDescriptor(self._context.name, ACCESS_DENIED_TOKEN_PLACEHOLDER)
+                _logger.warning("Lock request without token for %s denied.", self._rpc_object.get_name())
+            elif self._locking_token is None:
                 # Object was not locked, lock it by storing the provided token.
                 self._locking_token = return_token = request.lock_token
                 _logger.info("%s locked with %s!", self._rpc_object.get_name(), request.lock_token)
@@ -1122,8 +1126,8 @@ class _RpcThread(QMI_Thread):
         elif request.lock_action == QMI_LockRpcAction.FORCE_RELEASE:
             # Force release of lock irrespective of requesting proxy.
             if self._locking_token is not None:
-                self._locking_token = return_token = None
                 _logger.warning("%s forcefully unlocked!", self._rpc_object.get_name())
+            self._locking_token = return_token = None
 
         elif request.lock_action == QMI_LockRpcAction.QUERY:
             # Nothing to do here; reply will contain the locking token (if any), is_locked() method of proxy
